@@ -19,7 +19,17 @@ The semantic property under consideration ({pid}: {p['title']}):
   It is quantified over: {p['quantifier']['text']}
   Code it is anchored in: {', '.join(p['anchors']['files'])}
 """
-if mode == "break":
+if mode == "scale":
+    body = f"""
+YOUR TASK: produce TWO different, independent source changes (call them A and B) to the project's code, each of which BREAKS this property while the code still imports and the existing test suite still passes (same 58 passes) — and which manifest ONLY AT SCALE or only in a particular ENVIRONMENT, the natural blind spots of quick differential testing on small generated inputs: e.g. narrow integer dtypes or float32 accumulators that overflow / lose exactness only beyond a few thousand or 2^15 / 2^16 / 2^24 rows, values, distinct categories, columns, batches or calls; fixed-size buffers, caches with eviction, LRU sizes, chunking thresholds, recursion limits; quadratic shortcuts switched on above a size threshold ("fast path for large inputs"); behaviour that depends on the number of worker threads, PYTHONHASHSEED, locale, current working directory, file size or gzip, long lines, or on how many mini-batches / calls preceded. Each must look like a plausible optimisation or refactor (no magic sabotage constants: thresholds must have a believable performance rationale), and small/ordinary inputs (say fewer than ~2000 rows, fewer than ~100 distinct values, fewer than ~10 columns, a single batch or call) must behave exactly as before. A and B must attack different clauses/mechanisms and be DIFFERENT from these ideas already used by others:
+{chr(10).join(known) if known else '- (none so far)'}
+
+For each change deliver, in {wt}/.rt_out/A/ and {wt}/.rt_out/B/:
+  - patch.diff : `git diff` of ONLY that change against HEAD (apply-able with `git apply` on a clean checkout),
+  - demo.py : a small self-contained program (run with the command line above; keep its runtime under ~2 minutes) that exits 0 / prints PASS on the UNMODIFIED tree and exits 1 / prints FAIL with the change applied, demonstrating the property violation on a concrete large/environment-specific input, and ALSO shows that a small ordinary input behaves identically with and without the change,
+  - meta.json : {{"property": "{pid}", "clause_broken": "...", "what_it_needs_to_manifest": "... (state the smallest size / the environment at which it shows)", "why_tests_still_pass": "...", "commands_run": ["..."]}}.
+Verify all of it yourself: clean tree -> demo passes, suite passes; apply A -> demo fails, suite still passes; `git checkout -- .`; same for B. Leave the worktree clean (no modified tracked files) at the end; the .rt_out and .rt_tmp directories stay. In your final message list for A and B: the diff in a few lines, the failing input with its size, and the exact commands you ran with their outcomes."""
+elif mode == "break":
     body = f"""
 YOUR TASK: produce TWO different, independent source changes (call them A and B) to the project's code, each of which BREAKS this property while the code still imports and the existing test suite still passes (same 58 passes). The changes should look like plausible developer mistakes, refactors or "optimisations" (no magic constants, no sabotage), and should need something SPECIFIC to manifest — a particular multi-step sequence of operations or calls on the same objects/process, an unusual-but-legal input, a boundary size, a particular configuration flag combination, or two cooperating sites that each look fine alone — rather than failing on the very first ordinary use. Prefer subtle ones: small numeric deviations that are still far above float32 rounding, state leaking between calls/batches, boundary conditions, rarely used code paths or arguments, behaviour that differs only for particular value patterns. A and B must attack different clauses/mechanisms of the property, and must be DIFFERENT from these ideas that were already used by others:
 {chr(10).join(known) if known else '- (none so far)'}
